@@ -7,7 +7,7 @@ name=$1; patch=$(readlink -f "$2"); demo=$(readlink -f "$3"); prop=$4
 export GOPROXY=off
 wt=/tmp/confirm-$name
 out=/verif/seeded/$name
-mkdir -p "$out"; rm -rf "$out/demo"; cp "$patch" "$out/patch.diff"; cp -r "$demo" "$out/demo"
+mkdir -p "$out"; if [ "$patch" != "$out/patch.diff" ]; then cp "$patch" "$out/patch.diff"; fi; if [ "$demo" != "$out/demo" ]; then rm -rf "$out/demo"; cp -r "$demo" "$out/demo"; fi
 log=$out/confirm.log; : > "$log"
 git -C /repo worktree remove --force "$wt" >/dev/null 2>&1
 git -C /repo worktree add -q --detach "$wt" HEAD || exit 2
